@@ -448,3 +448,6 @@ func IsNoReturnCall(in ssa.Instruction) bool {
 	}
 	return false
 }
+
+// EvalFact evaluates a boolean / nil-ness value at a node under path facts (+1 true, -1 false, 0 unknown).
+func EvalFact(n *Node, v ssa.Value, f Facts) int8 { return eval(n.Frame, v, f) }
